@@ -132,7 +132,8 @@ def check_C06(c):
 
 def check_C07(c):
     mc_inflate_core(c)
-    c.scenario("schedules", extra=["--in", gen_valid_small(c)])
+    # valid and invalid grammar-generated streams: the invalid ones are compared schedule against schedule
+    c.scenario("schedules", extra=["--in", c.generate("MC_GenAcc", "MC_GenAcc_sim.cfg", 500 if thorough(c) else 140, 300)])
     return c.finish("model_checking", RULE_DEC, TRUST)
 
 
